@@ -113,120 +113,154 @@ def child_main(proc, sockpath, cache_dir, forms, max_polls, opt_flags):
                 return k
         return "other"
 
-    real_open = open
-
-    def open_proxy(file, mode="r", *a, **kw):
-        k = kind(file)
-        if k == "other":
-            return real_open(file, mode, *a, **kw)
-        park("open", file=k, mode=mode, path=str(file))
-        try:
-            fh = real_open(file, mode, *a, **kw)
-        except FileExistsError:
-            post("open", "exists", file=k, mode=mode)
-            raise
-        except OSError as e:
-            post("open", "err:" + type(e).__name__, file=k, mode=mode)
-            raise
-        post("open", "ok", file=k, mode=mode)
-        return fh
-
-    class PathProxy:
-        def __getattr__(self, n):
-            return getattr(os.path, n)
-
-        def exists(self, p):
-            k = kind(p)
-            if k == "other":
-                return os.path.exists(p)
-            park("exists", file=k, path=str(p))
-            r = os.path.exists(p)
-            post("exists", "true" if r else "false", file=k)
-            return r
-
-        isfile = exists
-
-    class OsProxy:
-        path = PathProxy()
-
-        def __getattr__(self, n):
-            return getattr(os, n)
-
-        def _two(self, name, a, b):
-            park(name, file=kind(a), dst=kind(b), path=str(a))
-            try:
-                r = getattr(os, name)(a, b)
-            except OSError as e:
-                post(name, "err:" + type(e).__name__, file=kind(a), dst=kind(b))
-                raise
-            post(name, "ok", file=kind(a), dst=kind(b))
-            return r
-
-        def replace(self, a, b):
-            return self._two("replace", a, b)
-
-        def rename(self, a, b):
-            return self._two("rename", a, b)
-
-        def _one(self, name, a):
-            if kind(a) == "other":
-                return getattr(os, name)(a)
-            park(name, file=kind(a), path=str(a))
-            try:
-                r = getattr(os, name)(a)
-            except OSError as e:
-                post(name, "err:" + type(e).__name__, file=kind(a))
-                raise
-            post(name, "ok", file=kind(a))
-            return r
-
-        def remove(self, a):
-            return self._one("remove", a)
-
-        def unlink(self, a):
-            return self._one("remove", a)
-
-    class TimeProxy:
-        def __getattr__(self, n):
-            return getattr(time, n)
-
-        def sleep(self, s):
-            park("sleep", secs=int(s))
-            post("sleep", "ok")
-
+    # ------------------------------------------------------------------
+    # Interposition at the level every Python file operation goes through (builtins.open, os.open, os.stat,
+    # os.rename/replace/unlink, time.sleep, importlib.util.module_from_spec), so that an implementation that
+    # reaches the lock / marker files through pathlib, os.open or anything else is observed just the same.
+    # Only the protocol's own files (<k>.c, <k>.c.cached, <k>.c.failed in the cache directory) are reported;
+    # calls made from inside cffi / distutils / the loader (the build itself) and from inside a
+    # higher-level hook are passed through.
+    import builtins
     import importlib
     import importlib.machinery
     import importlib.util
 
-    class UtilProxy:
-        def __getattr__(self, n):
-            return getattr(importlib.util, n)
+    depth = [0]
+    cache_prefix = os.path.realpath(cache_dir) + os.sep
 
-        def module_from_spec(self, spec):
-            try:
-                sha = hashlib.sha1(real_open(spec.origin, "rb").read()).hexdigest()
-            except OSError:
-                sha = "unreadable"
-            park("load", file="so", path=str(spec.origin), sha=sha)
-            try:
-                m = importlib.util.module_from_spec(spec)
-            except BaseException as e:
-                post("load", "err:" + type(e).__name__)
-                raise
-            post("load", "ok", sha=sha)
-            return m
+    def watched(path):
+        try:
+            p = os.fspath(path)
+        except TypeError:
+            return None
+        if isinstance(p, bytes):
+            p = p.decode()
+        if depth[0] or not os.path.realpath(p).startswith(cache_prefix):
+            return None
+        k = kind(p)
+        if k not in ("c", "cached", "failed"):
+            return None
+        f = sys._getframe(2)
+        while f is not None:
+            mod = f.f_globals.get("__name__", "")
+            if mod.split(".")[0] in ("cffi", "distutils", "setuptools", "_distutils_hack", "importlib", "subprocess"):
+                return None
+            f = f.f_back
+        return k
 
-    class ImportlibProxy:
-        machinery = importlib.machinery
-        util = UtilProxy()
+    def hooked(name, k, path, call, extra=None, okres="ok"):
+        park(name, file=k, path=str(path), **(extra or {}))
+        depth[0] += 1
+        try:
+            r = call()
+        except FileExistsError:
+            depth[0] -= 1
+            post(name, "exists", file=k, **(extra or {}))
+            raise
+        except OSError as e:
+            depth[0] -= 1
+            post(name, "err:" + type(e).__name__, file=k, **(extra or {}))
+            raise
+        depth[0] -= 1
+        post(name, okres(r) if callable(okres) else okres, file=k, **(extra or {}))
+        return r
 
-        def __getattr__(self, n):
-            return getattr(importlib, n)
+    real_open = builtins.open
 
-    jit.open = open_proxy
-    jit.os = OsProxy()
-    jit.time = TimeProxy()
-    jit.importlib = ImportlibProxy()
+    def open_proxy(file, mode="r", *a, **kw):
+        k = watched(file) if not isinstance(file, int) else None
+        if k is None:
+            return real_open(file, mode, *a, **kw)
+        m = "x" if "x" in mode else "w" if any(ch in mode for ch in "wa+") else "r"
+        return hooked("open", k, file, lambda: real_open(file, mode, *a, **kw), {"mode": m})
+
+    real_os_open = os.open
+
+    def os_open_proxy(path, flags, *a, **kw):
+        k = watched(path)
+        if k is None:
+            return real_os_open(path, flags, *a, **kw)
+        m = ("x" if flags & os.O_EXCL and flags & os.O_CREAT else
+             "w" if flags & (os.O_CREAT | os.O_WRONLY | os.O_RDWR | os.O_TRUNC | os.O_APPEND) else "r")
+        return hooked("open", k, path, lambda: real_os_open(path, flags, *a, **kw), {"mode": m})
+
+    real_stat = os.stat
+
+    def stat_proxy(path, *a, **kw):
+        k = watched(path) if not isinstance(path, int) else None
+        if k is None:
+            return real_stat(path, *a, **kw)
+        park("exists", file=k, path=str(path))
+        depth[0] += 1
+        try:
+            r = real_stat(path, *a, **kw)
+        except OSError:
+            depth[0] -= 1
+            post("exists", "false", file=k)
+            raise
+        depth[0] -= 1
+        post("exists", "true", file=k)
+        return r
+
+    def two(name, real):
+        def f(a, b, *x, **kw):
+            k = watched(a) or watched(b)
+            if k is None:
+                return real(a, b, *x, **kw)
+            return hooked(name, kind(a), a, lambda: real(a, b, *x, **kw), {"dst": kind(b)})
+        return f
+
+    def one(name, real):
+        def f(a, *x, **kw):
+            k = watched(a)
+            if k is None:
+                return real(a, *x, **kw)
+            return hooked(name, k, a, lambda: real(a, *x, **kw))
+        return f
+
+    builtins.open = open_proxy
+    import io as _io
+    _io.open = open_proxy
+    os.open = os_open_proxy
+    os.stat = stat_proxy
+    os.replace = two("replace", os.replace)
+    os.rename = two("rename", os.rename)
+    os.unlink = one("remove", os.unlink)
+    os.remove = one("remove", os.remove)
+
+    real_sleep = time.sleep
+
+    def sleep_proxy(secs):
+        f = sys._getframe(1)
+        if not f.f_globals.get("__name__", "").startswith("ffcx"):
+            return real_sleep(secs)
+        park("sleep", secs=int(secs))
+        post("sleep", "ok")
+
+    time.sleep = sleep_proxy
+
+    real_mfs = importlib.util.module_from_spec
+
+    def mfs_proxy(spec):
+        if not str(getattr(spec, "origin", "")).startswith(cache_prefix):
+            return real_mfs(spec)
+        try:
+            sha = hashlib.sha1(real_open(spec.origin, "rb").read()).hexdigest()
+        except OSError:
+            sha = "unreadable"
+        park("load", file="so", path=str(spec.origin), sha=sha)
+        depth[0] += 1
+        try:
+            m = real_mfs(spec)
+        except BaseException as e:
+            depth[0] -= 1
+            post("load", "err:" + type(e).__name__)
+            raise
+        depth[0] -= 1
+        post("load", "ok", sha=sha)
+        return m
+
+    importlib.util.module_from_spec = mfs_proxy
 
     real_codegen = ffcx.compiler.compile_ufl_objects
 
@@ -235,11 +269,14 @@ def child_main(proc, sockpath, cache_dir, forms, max_polls, opt_flags):
         if st["fault"] == "codegen":
             post("codegen", "fail")
             raise RuntimeError("injected code generation failure")
+        depth[0] += 1
         try:
             r = real_codegen(*a, **kw)
         except BaseException as e:
+            depth[0] -= 1
             post("codegen", "fail:" + type(e).__name__)
             raise
+        depth[0] -= 1
         post("codegen", "ok")
         return r
 
@@ -249,7 +286,11 @@ def child_main(proc, sockpath, cache_dir, forms, max_polls, opt_flags):
 
     def mcs_proxy(ffi, module_name, preamble, target_c_file, verbose=False):
         park("ccsrc", file=kind(target_c_file), path=str(target_c_file))
-        r = real_mcs(ffi, module_name, preamble, target_c_file, verbose=verbose)
+        depth[0] += 1
+        try:
+            r = real_mcs(ffi, module_name, preamble, target_c_file, verbose=verbose)
+        finally:
+            depth[0] -= 1
         post("ccsrc", "ok")
         return r
 
@@ -526,8 +567,9 @@ class Sched:
         posts, nxt = self._pump(p)
         res = next((x["res"] for x in posts if x["ev"] == ev), "none")
         # bookkeeping that defines the abstract state
-        if ev == "open" and m["file"] == "c" and res == "ok" and m["mode"] == "x":
-            self.owner[k] = p
+        was_absent = (self.trace[-1]["fs"][k]["c"] == "absent") if self.trace else True
+        if ev == "open" and m["file"] == "c" and res == "ok" and (m["mode"] == "x" or (m["mode"] == "w" and was_absent)):
+            self.owner[k] = p            # whoever created the present <k>.c
             self.isbuilder[p] = True
         if ev in ("replace", "rename", "remove") and m["file"] == "c" and res == "ok":
             self.owner[k] = "none"
